@@ -411,6 +411,16 @@ Definition C13_ok (doc : jv) (r : result) : bool :=
       strs_eqb names (step_names (yaml_load doc))
   end.
 
+(** signature of the known finding K5: the written document repeats a key in
+    some mapping (the YAML loader merges them silently before verification);
+    everything else the monitor asks for holds on the loaded document *)
+Definition sig_K5 (doc : jv) (obs : result) : bool :=
+  negb (nodupkeys doc) &&
+  match obs with
+  | Accept names => negb (malformed (yaml_load doc)) && strs_eqb names (step_names (yaml_load doc))
+  | _ => false
+  end.
+
 Definition rclass_eqb (a b : rclass) : bool :=
   match a, b with Diag _, Diag _ => true | Internal, Internal => true | _, _ => false end.
 (** observable equality: the class and, when accepted, the step list *)
